@@ -85,9 +85,15 @@ func NewRequestPacket(ntskeData ntske.Data) (pkt Packet, uniqueid []byte) {
 	cookie.Cookie = ntskeData.Cookie[0]
 	pkt.Cookies = append(pkt.Cookies, cookie)
 
-	// Add cookie extension fields here s.t. 8 cookies are available after response.
+	// Add cookie extension fields here s.t. 8 cookies are available after response,
+	// as far as the request and the response fit into MaxPacketLen.
+	numPlaceholders := numStoredCookies - len(ntskeData.Cookie)
+	maxPlaceholders := maxCookies(len(id), len(cookie.Cookie)) - 1
+	if numPlaceholders > maxPlaceholders {
+		numPlaceholders = maxPlaceholders
+	}
 	cookiePlaceholderData := make([]byte, len(cookie.Cookie))
-	for i := len(ntskeData.Cookie); i < numStoredCookies; i++ {
+	for i := 0; i < numPlaceholders; i++ {
 		var cookiePlacholder CookiePlaceholder
 		cookiePlacholder.Cookie = cookiePlaceholderData
 		pkt.CookiePlaceholders = append(pkt.CookiePlaceholders, cookiePlacholder)
@@ -282,6 +288,10 @@ func NewResponsePacket(cookies [][]byte, key []byte, uniqueid []byte) (pkt Packe
 	uid.ID = uniqueid
 	pkt.UniqueID = uid
 
+	if n := maxCookies(len(uniqueid), len(cookies[0])); n >= 1 && len(cookies) > n {
+		cookies = cookies[:n]
+	}
+
 	lencookies := len(cookies) * (4 + len(cookies[0]))
 	buf := make([]byte, lencookies)
 	var err error
@@ -311,6 +321,17 @@ func ProcessRequest(b []byte, key []byte, pkt *Packet) error {
 		return err
 	}
 	return nil
+}
+
+// maxCookies returns the number of cookie (or cookie placeholder) extension
+// fields with cookieLen bytes each that fit into a packet of MaxPacketLen
+// bytes next to the NTP header, a unique identifier of idLen bytes and an
+// authenticator, whether the cookies are sent in the clear or encrypted.
+func maxCookies(idLen, cookieLen int) int {
+	idFieldLen := 4 + (idLen+3)&^3
+	cookieFieldLen := 4 + (cookieLen+3)&^3
+	authFieldLen := 4 + 4 + 16 /* nonce */ + 16 /* SIV tag */
+	return (MaxPacketLen - ntpPacketLen - idFieldLen - authFieldLen) / cookieFieldLen
 }
 
 type extHdr struct {
